@@ -10,7 +10,7 @@ RULES = {
     "C03": [("sa.rules.b1", "r_C03a"), ("sa.rules.b6", "r_C03bc"), ("sa.rules.b3", "r_C03de_C11a_C17bc"), ("sa.rules.c03", "r_C03fgh"), ("sa.rules.c03", "r_C03k"), ("sa.rules.c25", "r_C25efg"), ("sa.rules.cmeta", "r_initclass"), ("sa.rules.c03e", "r_C03eval"), ("sa.rules.cpn", "r_processnode"), ("sa.rules.c17", "r_C01h"), ("sa.rules.c02", "r_C02eval"), ("sa.rules.c01e", "r_C01visitors")],
     "C04": [("sa.rules.b2", "r_C04"), ("sa.rules.c04", "r_C04a"), ("sa.rules.c04", "r_C04num"), ("sa.rules.c04", "r_C04defaults"), ("sa.rules.c01", "r_C01ef"), ("sa.rules.cmisc", "r_C06bcd"), ("sa.rules.cmeta", "r_mmapi"), ("sa.rules.cpn", "r_processnode"), ("sa.rules.c14", "r_endconstruction"), ("sa.rules.cmeta", "r_initobj")],
     "C05": [("sa.rules.b3", "r_C05_C10"), ("sa.rules.c05", "r_C05cde"), ("sa.rules.c14", "r_C14h"), ("sa.rules.c14", "r_C14inst"), ("sa.rules.b3", "r_C16a"), ("sa.rules.cpn", "r_processnode"), ("sa.rules.c05e", "r_C05children"), ("sa.rules.cmeta", "r_initobj"), ("sa.rules.c13", "r_C13eval")],
-    "C06": [("sa.rules.b7", "r_origin"), ("sa.rules.cmisc", "r_C06bcd"), ("sa.rules.c05", "r_C05cde"), ("sa.rules.c17", "r_C01h"), ("sa.rules.cpn", "r_processnode"), ("sa.rules.cdrv", "r_driver"), ("sa.rules.c16", "r_cachekeys"), ("sa.rules.c01e", "r_C01visitors"), ("sa.rules.c21", "r_matchvisitors"), ("sa.rules.cmeta", "r_internalload"), ("sa.rules.c25e", "r_resolverefs")],
+    "C06": [("sa.rules.b7", "r_origin"), ("sa.rules.cmisc", "r_C06bcd"), ("sa.rules.c05", "r_C05cde"), ("sa.rules.c17", "r_C01h"), ("sa.rules.cpn", "r_processnode"), ("sa.rules.cdrv", "r_driver"), ("sa.rules.c16", "r_cachekeys"), ("sa.rules.c01e", "r_C01visitors"), ("sa.rules.c21", "r_matchvisitors"), ("sa.rules.cmeta", "r_internalload"), ("sa.rules.c25e", "r_resolverefs"), ("sa.rules.b6", "r_C19a_C01")],
     "C07": [("sa.rules.b3", "r_C07"), ("sa.rules.b6", "r_C03bc"), ("sa.rules.c03", "r_C03fgh"), ("sa.rules.c07", "r_C07eval"), ("sa.rules.c05", "r_none_tests"), ("sa.rules.c01", "r_C01i"), ("sa.rules.c25", "r_who_writes"), ("sa.rules.b3", "r_C16a"), ("sa.rules.c01e", "r_C01visitors"), ("sa.rules.cres", "r_resolver"), ("sa.rules.cpn", "r_processnode"), ("sa.rules.c05e", "r_C05children"), ("sa.rules.c32", "r_C32"), ("sa.rules.c03e", "r_C03eval"), ("sa.rules.cmeta", "r_initclass")],
     "C08": [("sa.rules.b3", "r_C08_C34"), ("sa.rules.cmeta", "r_initobj"), ("sa.rules.cres", "r_resolver"), ("sa.rules.cpn", "r_processnode"), ("sa.rules.c09e", "r_extrel"), ("sa.rules.c02", "r_C02eval")],
     "C09": [("sa.rules.b3", "r_C09"), ("sa.rules.b3", "r_C07"), ("sa.rules.cmisc", "r_C13d_C34f_C09d"), ("sa.rules.b3", "r_C08_C34"), ("sa.rules.cres", "r_resolver"), ("sa.rules.c10e", "r_C10eval"), ("sa.rules.cpn", "r_processnode"), ("sa.rules.c11e", "r_C11eval"), ("sa.rules.cdrv", "r_driver"), ("sa.rules.c09e", "r_extrel"), ("sa.rules.c17", "r_C18i"), ("sa.rules.c17e", "r_C17eval")],
@@ -71,7 +71,7 @@ ALSO = {
     "C05": {"C14": ("C14.j", "C14.m", "C14.p"), "C16": ("C16.a",), "C01": ("C01.j",), "C13": ("C13.b",)},     # C13.b: a replacement written into another slot leaves a contained object whose parent link does not match the list; C01.j: a list attribute left on the class is shared: every object 'contains' the children of all others
     # a reference list / an attribute a user class shadows at class level is shared by all objects (C08: order of one object's references; C14: __init__ arguments)
     "C08": {"C01": ("C01.j",), "C09": ("C09.f",)},
-    "C06": {"C05": ("C05.f",), "C01": ("C01.h",)},
+    "C06": {"C05": ("C05.f",), "C01": ("C01.h", "C01.c")},      # C01.c: a rule whose whitespace modifiers are dropped skips the blanks it should match: its object's span shrinks
     # the CLI prints file:line:col of the error it gets
     "C30": {"C33": ("C33.b", "C33.a",), "C28": ("C28.i",), "C26": ("C26.g",)},
     # error locations of list references come from the element positions (C08.e); line/col arithmetic (C06.d)
